@@ -290,7 +290,7 @@ func inoTerm(h *inoHist) string {
 		}
 		obs = append(obs, lib.Pair(lib.Bool(h.GRan[k]), o))
 	}
-	return lib.App("InoHist", lib.Str(h.C0), lib.List(evs), lib.List(obs))
+	return lib.App("C01Ext.InoHist", lib.Str(h.C0), lib.List(evs), lib.List(obs))
 }
 
 // inoOracle: every build succeeds and has the outputs of a clean build of the same tree; a consumer whose file changed
